@@ -18,8 +18,8 @@
 From DV Require Export Base.
 Open Scope N_scope.
 
-Definition circuit := N.
-Definition rid := N.
+Notation circuit := N (only parsing).
+Notation rid := N (only parsing).
 
 Definition memN (x : N) (l : list N) : bool := existsb (N.eqb x) l.
 Definition removeN (x : N) (l : list N) : list N := filter (fun y => negb (N.eqb x y)) l.
